@@ -31,3 +31,27 @@ def replay(ctx, verdict):
 
 
 MANIFEST = {'technique': 'Coq theorems over all label sequences of the session-pair model (closing frame numbered last, reader gets a prefix, closed-stream read/write semantics; exactness of close over all healthy label sequences) + lock-step differential execution with closes overtaking/trailing data across connections and with failing sends', 'level_text': "Proved in Coq for every label sequence: C03_close_numbered_after_data (the closing notice takes the sequence number after every data frame and carries no data, so the re-sequencer - C02_close_in_order - applies it only after all data), C03_reader_gets_prefix, C03_writes_fail_after_close, C03_closed_stream_serves_buffered_then_error (a closed stream never blocks a reader: buffered bytes, then the broken-stream error). Proved for every healthy label sequence (no connection failure, no session close; closing notice overtaking or trailing data on any connections): C03_close_is_delivered (once the writer has closed and no frame of the direction is in flight, the reader's end IS closed and holds exactly the bytes written) and C03_close_is_exact - if the reader's end is closed and the reader did not close it itself, the writer did close the stream and read ++ pipe = EXACTLY the bytes written (never an early end, never a lost tail). Decided on every run by the lock-step correspondence + oracle over seeded scenarios: closes by either/both sides, zero bytes before close, reads blocked across the close, the closing notice failing to be sent on a broken connection (blocked reads must return).", 'level_note': 'Granularity: one harness label runs to quiescence; goroutine interleavings inside a label are covered by schedule-point replays, the race detector and (C13) the concurrent stress driver, not by the theorems. Hypotheses of the theorems: stream ids returned by OpenStream are fresh at the opener (fresh_run; in Cloak only the client opens streams), fewer than 2^64-2 frames per stream direction. Frames are abstract (decoded) in this model: codec = C04, record framing = C05. Trusted: Coq kernel, extraction (ExtrOcamlBasic), testing/synctest barrier, in-memory FIFO connections.', 'design_ref': 'DESIGN.md section 6, C03'}
+
+
+# ---- relay level: Model/RelayPair.v (the two relay goroutines server.serveSession starts per stream) + Model/Copy.v
+import relaylib
+
+EXTRACT_FILES = EXTRACT_FILES + ['Extract/Relay']
+TRUSTED = TRUSTED + ['relay level: hand-written model coq/Model/RelayPair.v of the two common.Copy goroutines per stream (one program counter each, Copy\'s deferred src.Close(); dst.Close() as two steps, Stream.ReadFrom\'s closed test after its read); the environment (what the stream and the proxy connection deliver, and when they end) is an input; correspondence: the real server.serveSession between a real Session pair and a proxy connection owned by the harness, with the dial held back until the client\'s writes and close have reached the server and with a proxy connection that lets a pending Close overtake a Write (harness/server/relay_serve_test.go); common.Copy itself call by call: Model/Copy.v vs harness/common/relay_copy_test.go']
+MANIFEST = dict(MANIFEST,
+                level_text=MANIFEST['level_text'] + ' Relay level (Model/RelayPair.v, every schedule of the two relay goroutines of a stream): C03_relay_delivers_all_before_closing (the peer wrote B and closed, the local peer is silent: the relay closes the local connection only after ALL of B has been written to it; never stuck), C03_relay_can_finish, C03_relay_pair_safe (prefixes in every environment), C03_relay_early_check_refuted (a closed-flag test in front of ReadFrom\'s read loses the tail).',
+                level_note=MANIFEST.get('level_note', '') + ' The relay-pair model is compared with the real server.serveSession (gated dial, Close-overtakes-Write proxy connection) and with the real common.Copy on scripted connections.')
+_corr_before_relay = correspondence
+_replay_before_relay = replay
+
+
+def correspondence(ctx, verdict, pr):
+    res = _corr_before_relay(ctx, verdict, pr)
+    res['broken'] += relaylib.run_serve(ctx, verdict, 'C03') + relaylib.run_copy(ctx, verdict, 'C03')
+    return res
+
+
+def replay(ctx, verdict):
+    if str(ctx.replay.get('kind', '')).startswith('relay'):
+        return relaylib.replay(ctx, verdict, 'C03')
+    return _replay_before_relay(ctx, verdict)
